@@ -183,42 +183,37 @@ Proof. vm_compute. split; reflexivity. Qed.
    every function name, no catch clauses, the entry function among them.  Out of F3: closures /
    nested functions, function values other than a called name, catch clauses, non-int data.
 
-   PROVED so far (closed, below): `compile_expr_correct_frames` — expression-level correctness on
-   the machine with frames for levels 1 and 2, print(e) through the real call sequence and the
-   stdlib body, faults DISPATCHED through the exception table, a fault inside a call argument
-   unwinding the pending MARK through LABEL; RETHROW.
-   NOT YET PROVED (the tie checks it on every generated program): the full statement
-
-     Theorem compile_program_correct_F3 : forall fuel p args,
-       Compile3.prog_in_F3 p = true ->
-       match run_program fuel p args with
-       | OResult v printed =>
-           exists k z, Compile3.run_vm p k args = VRet z printed /\ val_rel v z
-       | OUnhandled ex printed =>
-           exists k, Compile3.run_vm p k args = VExc ex printed
-       | OFuel | OStuck => True
-       end.
-
-     (ValueVM3's stack is unbounded; the real VM additionally stops with "stack too large" when
-      `flat_len` of a state — evaluator call depth d costs at most d * (5 + parameters + locals +
-      temporaries of the deepest-nesting function) + 30 + number of functions slots — reaches the
-      stack size; the tie compares the peak of `flat_len` with the real peak sp.)
-
-   missing: (a) the case of a call of a program function (argument list by induction with
-   expr_spec, callee body at the callee's registers, RET / RETHROW back to the caller);
-   (b) expressions in tail position and the frame-reusing self tail call; (c) `prog_ok` for
-   `rel_image p` and the entry stub.  Src/CompileCorrect3.v lists the lemmas already in place. *)
+   ValueVM3's stack is unbounded: the theorems are about the machine without vm_check_stack.  The
+   real VM additionally stops with "stack too large" when the flat stack (`ValueVM3.flat_len`)
+   reaches its size; the tie compares the peak of `flat_len` with the real VM's peak sp on every
+   generated program (equal on all).  A bound of flat_len in terms of the evaluator's call depth
+   (30 + n + d·(5 + parameters + locals + temporaries)) is NOT proved. *)
 From NV Require Import VM.ValueVM3 Src.Compile3 Src.CompileCorrect3Base Src.CompileCorrect3
   Src.CompileCorrect3Prog.
 
-(* expression level, all three levels (calls included): for a program none of whose functions has a
-   self call in tail position (second hypothesis: the tail-position compilation of every body is the
-   plain one) *)
+(* whole programs: ValueVM3 on the module image, from the entry stub to HALT / UNHANDLED_EXCEPTION,
+   returns / prints / raises exactly what the evaluator says — for every evaluator fuel that gives an
+   outcome there is a VM fuel.  Calls, recursion, self tail calls (frame reuse), faults inside
+   callees (RETHROW chain to the stub's UNHANDLED_EXCEPTION) included. *)
+Theorem compile_program_correct_F3 : forall fuel p args,
+  Compile3.prog_in_F3 p = true ->
+  match run_program fuel p args with
+  | OResult v printed =>
+      exists k z, Compile3.run_vm p k args = ValueVM3.VRet z printed /\ CompileCorrect3Base.val_rel v z
+  | OUnhandled ex printed =>
+      exists k, Compile3.run_vm p k args = ValueVM3.VExc ex printed
+  | OFuel | OStuck => True
+  end.
+Proof. exact (fun fuel p args H => CompileCorrect3Prog.compile_program_correct_F3 p args H fuel). Qed.
+Print Assumptions compile_program_correct_F3.
+
+(* expression level, all three levels: code embedded in a function of a program laid out as the
+   function table says (pcode_at), any related states, any frame registers.  Hypotheses on the
+   program: its functions are in the fragment and have pairwise different names. *)
 Theorem compile_expr_correct_frames : forall (X : xinfo) (G : ginfo) (lv : nat),
   (forall fd, In fd (g_funcs G) -> Compile3.func_in_F (g_sigs G) lv fd = true) ->
-  (forall fd, In fd (g_funcs G) ->
-     Compile3.compile_body (map fd_name (g_funcs G)) fd =
-     Compile3.compile_expr (map fd_name (g_funcs G)) 0 (Compile3.param_env (fd_params fd) 0) (EBlock (fd_body fd))) ->
+  (forall kidx fd, nth_error (g_funcs G) kidx = Some fd ->
+     find_func (fd_name fd) (g_funcs G) = Some fd) ->
   forall fuel e env st r st' sc,
   eval (g_genv G) fuel env st e = (r, st') ->
   Compile3.in_F (g_sigs G) lv sc e = true ->
@@ -245,26 +240,6 @@ Theorem compile_expr_correct_frames : forall (X : xinfo) (G : ginfo) (lv : nat),
     end.
 Proof. exact CompileCorrect3.compile_expr_correct_frames. Qed.
 Print Assumptions compile_expr_correct_frames.
-
-(* whole programs of F3 in which no self call is in tail position (`no_self_tail`: front/tailrec.c
-   marks nothing, every call goes through MARK … CALL): ValueVM3 on the module image, from the entry
-   stub to HALT / UNHANDLED_EXCEPTION, returns / prints / raises exactly what the evaluator says.
-   Calls, recursion, faults inside callees (RETHROW chain to the stub's UNHANDLED_EXCEPTION) included.
-   PARTIAL with respect to compile_program_correct_F3 (comment above): the frame-reusing self tail
-   call is not proved yet. *)
-Theorem compile_program_correct_F3_partial : forall fuel p args,
-  Compile3.prog_in_F3 p = true -> Compile3.no_self_tail p = true ->
-  match run_program fuel p args with
-  | OResult v printed =>
-      exists k z, Compile3.run_vm p k args = ValueVM3.VRet z printed /\ CompileCorrect3Base.val_rel v z
-  | OUnhandled ex printed =>
-      exists k, Compile3.run_vm p k args = ValueVM3.VExc ex printed
-  | OFuel | OStuck => True
-  end.
-Proof.
-  exact (fun fuel p args H1 H2 => CompileCorrect3Prog.compile_program_correct_F3_nontail p args H1 H2 fuel).
-Qed.
-Print Assumptions compile_program_correct_F3_partial.
 
 (* a concrete recursive program of F3:
      func fact(n : int) -> int { (n <= 0) ? 1 : (n * fact(n - 1)) }           (recursion, not tail)
@@ -306,15 +281,6 @@ Example ex3_raises :
   run_program 200 ex3 [2; 4] = OUnhandled ExDivision [12; 2; 1; 1].
 Proof. vm_compute. split; reflexivity. Qed.
 
-(* ex3 has a self tail call (sum): outside the partial theorem; the same program with sum's self call
-   not in tail position satisfies both hypotheses *)
-Definition sumb_fd : fdef := FDef 3%N [(4%N, false, TInt); (5%N, false, TInt)] TInt
-  [IExpr (ECond (EBin Le (EVar 4%N) (EInt 0)) (EVar 5%N)
-                (EBin Add (ECall (EVar 3%N) [EBin Sub (EVar 4%N) (EInt 1); EBin Add (EVar 5%N) (EVar 4%N)])
-                          (EVar 4%N)))] [] None.
-Definition ex3b : program :=
-  {| p_recs := []; p_funcs := [fact_fd; sumb_fd; dv_fd; main3_fd]; p_main := 0%N |}.
-
-Example ex3b_hyps : Compile3.prog_in_F3 ex3b = true /\ Compile3.no_self_tail ex3b = true /\
-                    Compile3.no_self_tail ex3 = false.
-Proof. vm_compute. repeat split; reflexivity. Qed.
+(* ex3 contains a self tail call (sum): `no_self_tail` is false for it, the theorem covers it *)
+Example ex3_has_tail_call : Compile3.no_self_tail ex3 = false.
+Proof. vm_compute. reflexivity. Qed.
